@@ -2,14 +2,22 @@
 import hashlib, os, re
 
 LEAN_MODULE = "RemocModel.Props.C06"
-LEAN_EXES = ["fault"]
-HARNESS_BINS = ["mux"]
+LEAN_EXES = ["fault", "faultup"]
+HARNESS_BINS = ["mux", "faultup"]
 THEOREMS = [
     "Remoc.Conn.idle_not_torn_down",
     "Remoc.Conn.timedOut_false",
     "Remoc.Conn.silence_times_out",
     "Remoc.Conn.first_fault_terminates",
     "Remoc.Link.prefix_after_fault",
+    "Remoc.Conn.terminated_all_error",
+    "Remoc.Conn.terminated_nothing_pending",
+    "Remoc.Conn.later_ops_error",
+    "Remoc.Conn.later_user_owned_ok",
+    "Remoc.Conn.api_after_termination",
+    "Remoc.Conn.api_after_termination_err",
+    "Remoc.Conn.termination_bounded",
+    "Remoc.Conn.fault_or_silence_terminates",
 ]
 RULE = ("fault enumeration on two real endpoints under a virtual clock (connection_timeout 1000..2000 ms): for each workload "
         "(ports opened from both sides, multi-chunk sends, chunk streams, port batches, calls left pending: connect without "
@@ -40,7 +48,10 @@ DESIGN_REF = "DESIGN.md section 5, C06"
 def run(ctx, replay=None):
     quick = ctx.tier == "quick"
     jobs = []
-    if replay:
+    up_replay = bool(replay) and open(replay).readline().startswith("# faultup one ")
+    if up_replay:
+        pass
+    elif replay:
         jobs.append(("replay", ["run", replay], None))
     else:
         if quick:
@@ -85,6 +96,66 @@ def run(ctx, replay=None):
             elif m.group(3) != "ok":
                 mism.append((tname, detail, trace))
 
+    # ---- layers above raw ports: typed channels, remote calls, mirrors, locks, lazy values (harness `faultup`)
+    up_total, up_fired, up_calls, up_judged, up_fails, up_stats = 0, 0, 0, 0, [], {}
+    if up_replay:
+        up_jobs = [("upreplay", ["one"] + open(replay).readline().split()[3:], None)]
+    elif replay:
+        up_jobs = []
+    else:
+        # quick: cut points sampled with a stride chosen for about 1500 runs; thorough: every cut point
+        up_jobs = [("up0", ["sweep", 2, 0, 1500], ctx.seed * 1000 + 30)] if quick else \
+                  [("up%d" % i, ["sweep", 2, 1], ctx.seed * 1000 + 30 + i) for i in range(3)]
+    for name, args, seed in up_jobs:
+        rc, err, trace = ctx.harness("faultup", args, out_path=os.path.join(ctx.workdir, "%s.trace" % name), seed=seed)
+        if rc != 0:
+            ctx.violation("faultup harness crashed: " + err[-300:], "faultup-harness-crash", err[-4000:], name="faultup-crash.txt", no_input=True)
+            continue
+        for k, v in ctx.stat_lines(err).items():
+            up_stats[k] = up_stats.get(k, 0) + v if isinstance(v, int) else v
+        rc, lines = ctx.driver("faultup", trace)
+        if rc != 0:
+            ctx.violation("faultup driver failed", "faultup-driver-failure", "\n".join(lines[-30:]), no_input=True)
+            continue
+        for line in lines:
+            m = re.match(r"END (\S+) events=(\d+) replay=(\w+) c06=(\w+) fired=(\d) calls=(\d+) judged=(\d+)", line)
+            if not m:
+                continue
+            up_total += 1
+            tname = m.group(1)
+            up_calls += int(m.group(6)); up_judged += int(m.group(7))
+            if m.group(5) == "1" and tname not in seen:
+                seen.add(tname)
+                up_fired += 1
+                k = "up-" + tname.split("-")[-1]
+                kinds[k] = kinds.get(k, 0) + 1
+                if len(samples) < 8 and up_fired % 211 == 1:
+                    samples.append(tname)
+            if m.group(4) != "ok":
+                up_fails.append((tname, [l for l in lines if l.startswith("FAIL %s " % tname)], trace))
+
+    def up_trace_of(tname, trace):
+        out, on = [], False
+        with open(trace) as f:
+            for line in f:
+                if line.startswith("trace "):
+                    on = line.split()[1] == tname
+                elif on and not line.startswith(("tx ", "rx ", "put m3 ")):
+                    out.append(line)
+        return "".join(out)
+
+    for tname, detail, trace in up_fails[:5]:
+        first = detail[0] if detail else "FAIL %s c06 line=0 ?" % tname
+        what = re.sub(r"line=\d+ ", "", first.split(" ", 3)[3] if len(first.split(" ", 3)) > 3 else first)
+        what_sig = re.sub(r"call \S+ ", "call ", what)
+        sig = "c06up " + re.sub(r"[0-9a-f]{6,}|\d+", "#", what_sig)[:160]
+        # up-v<w>-s<vseed>-<wire>-<index>-<kind>
+        mm = re.match(r"up-v(\d+)-s(\d+)-(\w)-(\d+)-(\w+)$", tname)
+        head = "# faultup one %s %s %s %s %s\n" % (mm.group(2), mm.group(1), mm.group(3), mm.group(4), mm.group(5)) if mm else "# faultup %s\n" % tname
+        ctx.violation("c06 (typed layers) fails on %s: %s" % (tname, what), sig,
+                      head + "# fail-stop predicate failed for the typed-layer workload at this cut point; replay: ./check C06 --replay <this file>\n# "
+                      + "\n# ".join(detail) + "\n" + up_trace_of(tname, trace))
+
     def script_of(tname, trace):
         out, on = [], False
         with open(trace) as f:
@@ -107,5 +178,9 @@ def run(ctx, replay=None):
         ctx.violation("run results of %d fault runs are not those of the model's run loop (first: %s: %s)" % (len(mism), tname, detail[0] if detail else ""),
                       "replay-mismatch", "# correspondence M_conn <-> ChMux::run broken\n%s\n# %s" % (script_of(tname, trace), "\n# ".join(detail)),
                       name="correspondence-M_conn.txt", no_input=True)
-    ctx.coverage.update({"evaluations": total, "distinct_nontrivial": fired, "traces_validated_against_impl": total,
+    kinds.update({"up_" + k: v for k, v in up_stats.items()})
+    kinds["up_calls_observed"] = up_calls
+    kinds["up_calls_judged_after_failure"] = up_judged
+    ctx.coverage.update({"evaluations": total + up_total, "distinct_nontrivial": fired + up_fired,
+                         "traces_validated_against_impl": total + up_total,
                          "samples": samples, "input_distribution": kinds, "exhaustive": not quick})
